@@ -38,7 +38,9 @@ NOTE = (
     "couplings (every cartesian component in [-2, 2], absolute tolerance 1e-9) on seeded events, not for symbolic kinematics"
 )
 TECHNIQUE = "symbolic execution of HelicityDecay / Particle / DecayChain / AmplitudeModel on a symbolic tensorflow substitute with symbolic invariant mass, helicity angles and couplings; rational and radical identities decided by z3 (QF_NRA), interference by linear real arithmetic on a monomial abstraction"
-EXPLANATION = CLAIM
+CLAIM_EXTRA = 'Also for the same events given in a frame in which the parent moves (beta = (0.3, -0.5, 0.6)): density of the boosted momenta = closed form from invariants.'
+NOTE_EXTRA = ''
+EXPLANATION = CLAIM + " " + CLAIM_EXTRA
 FUNCTIONS = [
     "tf_pwa/amp/core.py:HelicityDecay.get_amp", "tf_pwa/amp/core.py:HelicityDecay.get_helicity_amp", "tf_pwa/amp/core.py:HelicityDecay.get_ls_amp", "tf_pwa/amp/core.py:HelicityDecay.get_barrier_factor2",
     "tf_pwa/amp/core.py:HelicityDecay._get_cg_matrix", "tf_pwa/amp/core.py:HelicityDecay.get_relative_momentum2", "tf_pwa/amp/core.py:get_relative_p2", "tf_pwa/amp/core.py:get_relative_p",
